@@ -368,7 +368,7 @@ def runsProto (same : α → α → Bool) (take : Option Nat) (closeInner : Bool
       | (.end_, rs') => (.end_, { st with rs := rs' })
       | (.err e, rs') => (.err e, { st with rs := rs' })
     | some (g, acc, k) =>
-      if (match take with | some t => decide (t ≤ k) | none => false) then (.item acc, { st with cur := none })
+      if Iter.takeReached take k then (.item acc, { st with cur := none })
       else
         match runsInner same m g st.rs c with
         | (.item a, rs') => (.skip, { rs := rs', cur := some (g, acc ++ [a], k + 1) })
